@@ -139,6 +139,16 @@ NumTrees ==
     \cup {[ty |-> "bool", e |-> e] : e \in {Bin("==", Bin("*", LI(4097), LI(4097)), LI(16785409)), Bin("<", Bin("*", LI(4097), LI(4097)), LI(16785409)),
                                               Bin("==", LitRaw(VI(10), "010"), LI(10)), Bin("<", LitRaw(VI(9), "09"), LitRaw(VI(10), "010")), Bin("in", LitRaw(VI(8), "08"), Arr(<<LI(8)>>))}}
 
+\* string literals that spell a delimiter, hash literals inside hash literals (closing braces in a row): a tag ends where its
+\* expression ends, not at the first "}}" or "%}" of the source
+DelimTrees ==
+    {[ty |-> "str", e |-> Bin("~", LS(d), Var("s"))] : d \in {<<125, 125>>, <<37, 125>>, <<123, 123>>, <<123, 37>>, <<35, 125>>, <<123, 35>>, <<45, 125, 125>>, <<45, 37, 125>>}}
+    \cup {[ty |-> "str", e |-> Bin("~", Var("s"), LS(d))] : d \in {<<125, 125>>, <<37, 125>>, <<32, 125, 125, 32>>}}
+    \cup {[ty |-> "bool", e |-> Bin("==", LS(d), Var("s"))] : d \in {<<125, 125>>, <<37, 125>>}}
+    \cup {[ty |-> "int", e |-> e] : e \in {Item(Item(Hash(<<LS(<<97>>)>>, <<Hash(<<LS(<<98>>)>>, <<LI(1)>>)>>), LS(<<97>>)), LS(<<98>>)),
+                                            Bin("+", Var("a"), Item(Hash(<<LS(<<97>>)>>, <<Item(Hash(<<LS(<<98>>)>>, <<LI(3)>>), LS(<<98>>))>>), LS(<<97>>))),
+                                            Filt("length", Hash(<<LS(<<97>>)>>, <<Hash(<<LS(<<98>>)>>, <<Hash(<<LS(<<99>>)>>, <<LI(1)>>)>>)>>), <<>>)}}
+
 \* containment in a long sequence (the engine switches to a lookup table above 50 elements): literal and computed left operands
 Big(n) == VL([i \in 1..n |-> VI(i)])
 InTrees ==
@@ -245,7 +255,7 @@ PositionsAgree(t) ==
 
 Init == cs \in Parts
 Next == /\ "k" \in DOMAIN cs
-        /\ cs' \in {t \in (IF cs.ty = "spy" THEN SpyTrees \cup InTrees \cup NumTrees ELSE TreesOfPart(cs)) : InFragment(t)}
+        /\ cs' \in {t \in (IF cs.ty = "spy" THEN SpyTrees \cup InTrees \cup NumTrees \cup DelimTrees ELSE TreesOfPart(cs)) : InFragment(t)}
 Spec == Init /\ [][Next]_cs
 
 IsTree == "e" \in DOMAIN cs
